@@ -29,9 +29,14 @@ func newScanner(cv *dyn.ConvOp) *scanner { return newScannerCh(cv, 1) }
 // filled in order, so the channel count must not matter to the results).
 func newScannerCh(cv *dyn.ConvOp, ch int) *scanner {
 	frames := (chunkN + ch - 1) / ch
+	// both operands are windows (Slice views) of larger buffers, starting at a
+	// later frame and with spare capacity behind them: what holds for a freshly
+	// allocated buffer must hold for a view
+	srcParent := cv.S.Alloc(signal.Allocator{Channels: ch, Length: frames + 3, Capacity: frames + 5})
+	dstParent := cv.D.Alloc(signal.Allocator{Channels: ch, Length: frames + 2, Capacity: frames + 4})
 	return &scanner{cv: cv, ch: ch,
-		src: cv.S.Alloc(signal.Allocator{Channels: ch, Length: frames, Capacity: frames}),
-		dst: cv.D.Alloc(signal.Allocator{Channels: ch, Length: frames, Capacity: frames}),
+		src: srcParent.Slice(2, 2+frames),
+		dst: dstParent.Slice(1, 1+frames),
 		out: make([]uint64, chunkN), rev: make([]uint64, chunkN), tmp: make([]uint64, chunkN)}
 }
 
